@@ -118,8 +118,12 @@ Lemma wfb_false_of eof bl : wfb false bl = true -> wfb eof bl = true.
 Proof. destruct eof; cbn [wfb]; auto using wf_blank_eof_of. Qed.
 
 (* ---------- paths ---------- *)
+(* what follows a path: no word character, and not a separator ('.' between optional blanks) followed by an identifier.
+   (A '.' that is not followed by an identifier -- the double .5 after the path a -- ends the path before the '.') *)
+Definition sepfollow (lf : nat) (k : list byte) : Prop :=
+  is_perr (p_path_sep lf k) \/ exists i1 u, p_path_sep lf k = POk i1 u /\ same_len i1 k = false /\ is_perr (p_ident i1).
 Definition pfollow (lf : nat) (k : list byte) : Prop :=
-  hd_sat (fun b => negb (identch b)) k = true /\ is_perr (p_path_sep lf k).
+  hd_sat (fun b => negb (identch b)) k = true /\ sepfollow lf k.
 
 Lemma dot_not_blank_start : blank_start x2e = false. Proof. reflexivity. Qed.
 
@@ -160,7 +164,9 @@ Lemma path_loop : forall t k fuel,
 Proof.
   induction t as [|[[b1 b2] s] t IH]; intros k fuel Hw [Hk1 Hk2] S Hf.
   - cbn [pr_path_tail map] in *. destruct fuel as [|f]; [lia|]. cbn [sep_loop].
-    destruct (p_path_sep lf k); cbn in Hk2; try contradiction. reflexivity.
+    destruct Hk2 as [Hk2|[i1 [u [-> [Hs Hi]]]]].
+    + destruct (p_path_sep lf k); cbn in Hk2; try contradiction. reflexivity.
+    + rewrite Hs. destruct (p_ident i1); cbn in Hi; try contradiction. reflexivity.
   - cbn [pr_path_tail forallb fst snd map] in *. apply andb_prop in Hw. destruct Hw as [Hw Hwt].
     apply andb_prop in Hw. destruct Hw as [Hw Hs]. apply andb_prop in Hw. destruct Hw as [Hw1 Hw2].
     destruct fuel as [|f]; [lia|]. cbn [sep_loop].
